@@ -89,7 +89,6 @@ type vfMonOut struct {
 //nolint:gocognit,cyclop,gocyclo,maintidx
 func (s *vfSim) runMonitors(mc vfMonCfg) *vfMonOut {
 	res := s.res
-	s.vfDumpTrace()
 	evs := s.net.events()
 	s.mu.Lock()
 	hooks := append([]*vfHookEv(nil), s.hookLog...)
